@@ -3,9 +3,16 @@ package loader
 import "github.com/jsightapi/jsight-schema-core/notations/jschema/ischema"
 
 func AddUnnamedTypes(rootSchema *ischema.ISchema) {
-	for _, typ := range rootSchema.TypesList() {
-		for unnamed, unnamedTyp := range typ.Schema.TypesList() {
-			rootSchema.AddType(unnamed, unnamedTyp)
+	// Sorted order and "first registration wins": an entry of the root's own
+	// table must not be replaced by a same-named entry of one of its types
+	// (it carries another file), and nothing may depend on map iteration order.
+	for _, name := range rootSchema.TypeNames() {
+		typ := rootSchema.TypesList()[name]
+		for _, unnamed := range typ.Schema.TypeNames() {
+			if _, ok := rootSchema.TypesList()[unnamed]; ok {
+				continue
+			}
+			rootSchema.AddType(unnamed, typ.Schema.TypesList()[unnamed])
 		}
 	}
 }
